@@ -109,6 +109,9 @@ def run(ctx, config='rel-all'):
                 # wherever the two constructor assertions sit (inline, or in a helper they were extracted into): the panic is
                 # reachable only for an unsupported MIN_ALIGN, which C04 requires to be refused with a panic
                 ctx.ok('R1', '%s: reachable %s in %s' % (b['meta']['name'], k[1], k[0]), 'justified: panics only under !is_power_of_two(MIN_ALIGN) or MIN_ALIGN > CHUNK_ALIGN (required constructor validation, C04)')
+            elif k[1].startswith('assert:') and all(e.kind == 'assert' and I.refute(e.state, I.truth(e.state, e.val, not bool(e.extra.get('expected')))) for e in evs):
+                # a compiler-inserted check (bounds, overflow, ..) whose failing edge contradicts the path facts: not a feasible panic
+                ctx.ok('R1', '%s: %s in %s cannot fail' % (b['meta']['name'], k[1], k[0]), 'refuted: ' + str(I.refute(evs[0].state, I.truth(evs[0].state, evs[0].val, not bool(evs[0].extra.get('expected')))))[:80])
             else:
                 ctx.violation('R1', k[0], 'panic:%s' % k[1], 'a panic/abort site (%s in %s) is feasible from the fallible method %s [%s]' % (k[1], k[0], b['meta']['name'], ' > '.join(arena.short(s[0]) for s in evs[0].stack)), evs[0].span)
         if not sites:
@@ -244,7 +247,26 @@ def check_termination(ctx, db, config):
         return
     I, res, body = val
     gens = [e for e in res.events if e.kind == 'call' and e.callee == 'core::iter::sources::from_fn::from_fn']
-    ctx.floor('O4', len(gens), 1, 'candidate generators (iter::from_fn) on the slow path')
+    hl = [] if gens else arena.halving_loops(res)
+    ctx.floor('O4', len(gens) + len(hl), 1, 'candidate searches (iter::from_fn generator, or a halving loop) on the slow path')
+    for key, rec, l in hl:
+        # the search written as a plain loop: the measure is the candidate size itself; every back edge halves it and is
+        # taken only while it is > 0 (so size / 2 < size)
+        sym = rec['sym'][l]
+        okp = True
+        for st in rec['step']:
+            P = prover.Prover(I, st['facts'], use_J=False)
+            okp = okp and P.lt(C(0), sym)
+        fnn = arena.short(key[0])
+        if okp:
+            ctx.ok('O4', '%s: the retry loop halves the candidate size on every back edge and continues only while it is > 0' % fnn, 'measure size decreases (%d back edge(s))' % len(rec['step']))
+        else:
+            ctx.violation('O4', fnn, 'no-progress', 'a back edge of the retry loop is taken without size > 0 being established (size/2 < size): the retry loop need not terminate when the global allocator keeps refusing', body.get('span'))
+    if not gens and not hl:
+        # every loop of the slow path must have a decreasing measure; none was found for these
+        for key, rec in res.loops.items():
+            if key[0].endswith('alloc_layout_slow'):
+                ctx.violation('O4', arena.short(key[0]), 'no-halving', 'the retry loop of the slow path carries no size that every back edge halves', body.get('span'))
     from ..stdmodel import _mutated_upvars
     for ge in gens:
         clo = ge.args[0]
